@@ -405,6 +405,11 @@ def x7_shims(text, log):
         return "self.fmt(%s)" % m.group(1)
     text = re.sub(r"\bfmt::Display::fmt\(\s*self\s*,\s*([a-z_][a-z0-9_]*)\s*\)", dispself, text)
 
+    def dispfield(m):
+        log.add("X4:Display::fmt(&self.field,..)->self.field.fmt(..)")
+        return "%s.fmt(%s)" % (m.group(1), m.group(2))
+    text = re.sub(r"\bfmt::Display::fmt\(\s*&\s*(self(?:\.[a-z_][a-z0-9_]*)+)\s*,\s*([a-z_][a-z0-9_]*)\s*\)", dispfield, text)
+
     def disp(m):
         log.add("X7:vx_display")
         return "vx_display(%s, %s)" % (m.group(1), m.group(2))
@@ -579,6 +584,7 @@ class FnSpec:
         self.after = []
         self.opts = []
         self.bodystart = []
+        self.bodyend = []
         self.tline = 0
 
 
@@ -641,6 +647,9 @@ def parse_template(tpath):
                 cur_block = blk
             elif d == "bodystart":
                 cur_block = cur_fn.bodystart
+            elif d == "bodyend":
+                # before the closing brace of the body (for bodies ending in a statement)
+                cur_block = cur_fn.bodyend
             elif d.startswith("opt "):
                 cur_fn.opts += d[4:].split()
                 if cur_use and cur_fn is cur_use.top:
@@ -855,6 +864,8 @@ class Extractor:
             inserts.append((find_nth(snip, nth) + len(snip), blk))
         if fs.bodystart:
             inserts.append((1, fs.bodystart))
+        if fs.bodyend:
+            inserts.append((len(body) - 1, fs.bodyend))
         inserts.sort(key=lambda x: x[0])
         # ---- emit
         self._fn_marks.append([ident, len(self.pieces), None])
